@@ -83,6 +83,34 @@ func mutateLit(l *ALit, r *Rng) (undo func(), ok bool) {
 			return undo, false
 		}
 		s := l.Canon + "x"
+		if _, isStr := l.JSON.(string); isStr && r.Chance(45) {
+			// a different string that differs in little: white space at an end, case, a look-alike character, a final NUL-free control
+			switch r.Intn(9) {
+			case 7, 8:
+				// the last character replaced by its neighbour: for a long number the least significant digit
+				if n := len(l.Canon); n > 0 && l.Canon[n-1] >= '0' && l.Canon[n-1] < '9' {
+					s = l.Canon[:n-1] + string(l.Canon[n-1]+1)
+				} else if n > 0 && l.Canon[n-1] == '9' {
+					s = l.Canon[:n-1] + "8"
+				}
+			case 0:
+				s = l.Canon + " "
+			case 1:
+				s = " " + l.Canon
+			case 2:
+				s = l.Canon + "\n"
+			case 3:
+				s = l.Canon + "\u00a0"
+			case 4:
+				s = "\t" + l.Canon
+			case 5:
+				if up := strings.ToUpper(l.Canon); up != l.Canon {
+					s = up
+				}
+			default:
+				s = l.Canon + "\u200b"
+			}
+		}
 		*l = ALit{DT: l.DT, Kind: "str", Canon: s, JSON: s}
 	}
 	return undo, true
